@@ -437,7 +437,10 @@ def main(chk, argv=None):
             print(f"  oracle={v['oracle']} sig={sig}\n  detail={json.dumps(v['detail'], default=repr)[:1500]}",
                   flush=True)
         if replays:
-            status = 1 if status != 2 else 2
+            # a violation that replays in a fresh interpreter stands, whatever else went wrong
+            # in the batch (harness errors in other runs, another signature that did not replay:
+            # those are printed above as HARNESS-* lines)
+            status = 1
         if len(new_sigs) > len(todo):
             print(f"  ({len(new_sigs) - len(todo)} further distinct violation signatures not minimised: "
                   f"{new_sigs[len(todo):][:10]})", flush=True)
@@ -448,7 +451,8 @@ def main(chk, argv=None):
         det = _determinism(chk, seed, a.tier, ndig, out["digests"], procs)
         if det["ok"] is False:
             print(f"HARNESS-NONDETERMINISM property={chk.PROP} {det['detail']}", flush=True)
-            status = 2
+            if not replays:     # (state kept by the code under test between runs also shows here)
+                status = 2
 
     # ---- reach -------------------------------------------------------------
     missing = [k for k in getattr(chk, "REQUIRED_REACH", ()) if not out["stats"].get(k)]
